@@ -349,7 +349,27 @@ func C13(c *hx.Ctx) {
 			w.Close()
 			med = append(med, strm{fmt.Sprintf("lzma2-4k-%d", n), "lzma2-4k", b.Bytes(), plain})
 		}
-		pieces := []int{1, 7, 100}
+		// stored (uncompressed) chunks longer than the 4 KiB window, as xz-utils writes them for
+		// incompressible data at any dictionary size; followed and preceded by compressed chunks
+		for v := 0; v < 2; v++ {
+			e := ref.NewL2Enc(4096)
+			raw := MakeData("random", 20000+v*45536, c.Seed+int64(v)+900)
+			lz := ref.ChunkSpec{Kind: "LRND", Props: ref.Props{LC: 3, LP: 0, PB: 2}, Ops: []ref.Op{{K: ref.OpLit, B: 'a'}, {K: ref.OpLit, B: 'b'}, {K: ref.OpMatch, Dist: 2, Len: 200}}}
+			if v == 0 {
+				e.Add(lz)
+				e.Add(ref.ChunkSpec{Kind: "U", Raw: raw})
+			} else {
+				e.Add(ref.ChunkSpec{Kind: "UD", Raw: raw})
+				lz.Kind = "LRN"
+				e.Add(lz)
+			}
+			e.Add(ref.ChunkSpec{Kind: "LR", Ops: []ref.Op{{K: ref.OpLit, B: 'z'}, {K: ref.OpMatch, Dist: 300, Len: 40}}})
+			e.Add(ref.ChunkSpec{Kind: "EOS"})
+			med = append(med, strm{fmt.Sprintf("lzma2-4k-stored-chunk-%d", len(raw)), "lzma2-4k", e.Out, e.Pt})
+			file := ref.Serialize([]ref.LStream{ref.BuildStream(4, []ref.BlockSpec{{L2: e.Out, Content: e.Pt, DictCode: 0, WithU: v == 1}})})
+			med = append(med, strm{fmt.Sprintf("xz-4k-stored-chunk-%d", len(raw)), "xz", file, e.Pt})
+		}
+		pieces := []int{1, 7, 100, 8192, 70000}
 		parallel(len(med)*len(pieces), func(i int) {
 			s := med[i/len(pieces)]
 			k := pieces[i%len(pieces)]
